@@ -41,9 +41,12 @@ structure ImplOut where
   signals : List String
   statuses : List String
   panicked : Bool := false
+  /-- the frame was put on the bus but the service never got it (its network layer dropped it) -/
+  notReceived : Bool := false
 
 def parseOut? (s : String) : Option ImplOut :=
-  if s = "PANIC" then some ⟨[], [], [], true⟩ else
+  if s = "PANIC" then some ⟨[], [], [], true, false⟩ else
+  if s = "NOTRECEIVED" then some ⟨[], [], [], false, true⟩ else
   match s.splitOn "/" with
   | [f, sg, st] => do
       let frames ← parseFrames? f
@@ -77,7 +80,7 @@ def clauses (prop : String) (cfg : NetCfg) (seen : List Nat := []) : St → List
         | _ => []
       else []
     let here : List (String × Bool) :=
-      [("no_panic", !o.panicked)] ++
+      [("no_panic", !o.panicked), ("every_frame_on_the_bus_reaches_the_service", !o.notReceived)] ++
       (match e with
       | .cycle =>
         if prop == "C10" then
@@ -165,7 +168,7 @@ def check (prop : String) (inp out : List String) : Verdict :=
       if es.length != outs.length then .bad "one output per event" else
       let m := run cfg (init cfg) es
       let agree := (m.zip outs).all fun (a, b) =>
-        !b.panicked && a.frames == b.frames && a.signals.map DrvDrv.showSig == b.signals &&
+        !b.panicked && !b.notReceived && a.frames == b.frames && a.signals.map DrvDrv.showSig == b.signals &&
         a.statuses.map (showStatus cfg) == b.statuses
       { agree := agree, model := joinSp (m.map (showOut cfg)),
         specFail := (failing (clauses prop cfg [] (init cfg) es outs)).eraseDups }
